@@ -41,6 +41,7 @@ func register(id string, needSSA bool, run func(*Ctx)) {
 
 func init() {
 	register("C02", false, runC02)
+	register("C11", false, runC11)
 }
 
 func main() {
